@@ -7,6 +7,8 @@ executable (the finders use sin/cos); the dispatch name -> record is generated
 (Pymeeus/Gen/FinderDispatch.lean, tools/gen_finders.py).
 
   F finder s<Planet>.<finder> f<y>        -> `Epoch(jde0 + corr).jde()` and the elongation angle | None
+  F finder_jde s<Planet>.<finder> f<jde>   -> the same from the `_jde` of the query epoch (`Epoch.year()` modelled too)
+  F epoch_year f<jde>                     -> `Epoch(jde).year()` for an epoch whose `_jde` is jde
   F finder_raw s<Planet>.<finder> f<y>    -> `jde0 + corr`
   F finder_k s<Planet>.<finder> f<y>      -> the period count k
   F pa_k s<Planet>.perihelion_aphelion f<y> T|F    -> k of the first approximation
@@ -30,6 +32,8 @@ def findersF : Handler := fun fn a =>
   | "pa_jde" => (paRecord (fname a[0]!)).map fun r => out (GenF.pa_jde r (GenF.pa_k r a[1]!.f a[2]!.b) a[2]!.b)
   | "finder_bounds" => (finderRecord (fname a[0]!)).map fun r => out (r.B.toRat, r.corrMid, r.corrRad)
   | "pa_bounds" => (paRecord (fname a[0]!)).map fun r => out (r.P.toRat, r.Q.toRat, r.delta.toRat, r.corrRad)
+  | "finder_jde" => (finderRecord (fname a[0]!)).map fun r => out (GenF.finder_from_jde r a[1]!.f)
+  | "epoch_year" => some <| out (GenF.epoch_year a[0]!.f)
   | "epoch_of_jde" => some <| out (GenF.epoch_of_jde a[0]!.f)
   | _ => none
 
